@@ -119,6 +119,7 @@ func (D05) method[TM any]() {}
 	src2 := strings.Replace(src.String(), "func (D05) method[TM any]() {}\n", "", 1) // methods cannot have type parameters
 	files := map[string]string{
 		"go.mod":     "module " + pipe.ModPath + "\n\ngo 1.24\n",
+		"d/a_first.go": "// Package d: the first documented file (by name) carries no generator tags.\npackage d\n",
 		"d/doc.go":   "// Package d is a fixture.\n//\n" + tagLines(dc.PkgTags) + "package d\n",
 		"d/doc2.go":  "// Package d has a second package comment.\n//\n// +other=1\npackage d\n",
 		"d/decls.go": src2,
@@ -138,10 +139,11 @@ func (D05) method[TM any]() {}
 			return nil, "", fmt.Errorf("unknown generator id %q", g)
 		}
 		spec.Gens = append(spec.Gens, pipe.GenSpec{Name: name})
-		for _, t := range []string{"D01", "D05", "D13"} {
+		for _, t := range []string{"D01", "D05", "D25"} {
 			spec.Plan[pipe.ModPath+"/d|"+name+"|"+t] = "render_defer_nested"
 		}
-		for _, t := range []string{"D02", "D06", "D14"} {
+		spec.Plan[pipe.ModPath+"/d|"+name+"|D13"] = "render_defer_nested_outer" // follow-up registered through the captured context
+		for _, t := range []string{"D02", "D06", "D14", "D26"} {
 			spec.Plan[pipe.ModPath+"/d|"+name+"|"+t] = "render_defer"
 		}
 	}
